@@ -258,7 +258,17 @@ class PythonRegex(regex.Regex):
         if not bracket_content or bracket_content[0] != "^":
             return bracket_content
         # We inverse everything
-        return [x for x in ESCAPED_PRINTABLES if x not in bracket_content]
+        excluded = set()
+        for symbol in bracket_content[1:]:
+            if len(symbol) > 2 and symbol[0] == "(" and symbol[-1] == ")":
+                # A nested set coming from a shortcut
+                excluded.update(symbol[1:-1].split("|"))
+            elif len(symbol) == 2 and symbol[0] == "\\":
+                # An escaped character, in the form used for the printables
+                excluded.add(TRANSFORMATIONS.get(symbol[1], symbol[1]))
+            else:
+                excluded.add(symbol)
+        return [x for x in ESCAPED_PRINTABLES if x not in excluded]
 
     @staticmethod
     def _insert_or(l_to_modify):
